@@ -32,12 +32,22 @@ def synthetic(draw, tier):
     # compare by identity (encoded as {"obj": k}; one instance per k and case)
     # ... and names that are containers themselves ({"tup": [...]} stands for a tuple, {"fs": [...]} for a frozenset)
     pool = G.NAME_POOL + [2, "2", None, "None", 0, "0", {"obj": 1}, {"obj": 2},
-                          {"tup": ["clique", 2]}, {"tup": ["clique", 3]}, {"tup": []}, {"tup": ["a"]}, {"fs": [1, 2]}]
+                          {"tup": ["clique", 2]}, {"tup": ["clique", 3]}, {"tup": []}, {"tup": ["a"]}, {"fs": [1, 2]},
+                          # members of a caller's Enum (the library keeps its own names in Enums too): a member is not its value
+                          {"enum": "TIE"}, {"enum": "TRIANGLE"}, "2-clique"]
     rows = draw(st.lists(st.tuples(v, v, st.sampled_from(pool), st.integers(0, 6)), max_size=15))
     return {"synthetic": True, "N": N, "jds": jds, "rows": [list(r) for r in rows],
             # read-only queries on the converted network between the two conversions
             "queries": draw(st.sampled_from([False, False, True])),
             "debug_logging": draw(st.sampled_from([False, False, False, True]))}
+
+
+import enum
+
+
+class CallerTopology(enum.Enum):
+    TIE = "2-clique"
+    TRIANGLE = "3-clique"
 
 
 def strategy(tier):
@@ -112,6 +122,8 @@ def check(case):
                 return tuple(n["tup"])
             if "fs" in n:
                 return frozenset(n["fs"])
+            if "enum" in n:
+                return CallerTopology[n["enum"]]
             return objs.setdefault(n["obj"], Label(n["obj"]))
         el.topologies = [nm(n) for _, _, n, _ in case["rows"]]
         el.motif_id = [i for _, _, _, i in case["rows"]]
